@@ -22,6 +22,8 @@ CLAUSE = CLAUSE + (" (RF-WIDTH) the statistics fields that take a page's subpage
                    "(mask 0x3F7F).")
 CLAUSE = CLAUSE + (" The updates of subno_min and subno_max in cache_network_add_page do not depend on each other's test.")
 CLAUSE = CLAUSE + (" (RF-CORR) a function that can see zombie pages takes a page size off memory_used only on the not-a-zombie edge; cache_network_remove_page is given the page's own network.")
+CLAUSE = CLAUSE + (" The per-page subpage range (subno_min / subno_max; 0 doubles as 'none yet', so it is not a true minimum) "
+                   "decides control flow only where it is maintained and in the page walk - never in a lookup.")
 NOT_DECIDED = ("map semantics (lookup returns the most recent version), memory-limit arithmetic, exactness of the per-network "
                "statistics, distinctness of death_row entries across the two eviction passes.")
 
@@ -51,6 +53,7 @@ def run(ctx, run):
     _range_updates_independent(ctx, run)
     _zombies_not_counted(ctx, run)
     _stats_leave_own_network(ctx, run)
+    _subpage_range_decides_only_the_walk(ctx, run)
 
 
 def _zombies_not_counted(ctx, run):
@@ -646,3 +649,42 @@ def _range_updates_independent(ctx, run):
             else:
                 run.holds("RF-CORR", key, "the update of %s does not depend on the test of %s" % (l["member"], other), ex.loc(f, i))
     run.floor("updates of the received subpage range", n, 2)
+
+
+RANGE_DECIDERS = {"cache_network_add_page", "_vbi_cache_foreach_page"}
+
+
+def _subpage_range_decides_only_the_walk(ctx, run):
+    """ttx_page_stat.subno_min / subno_max are hints: subno_min == 0 doubles as "no subpage seen yet", so after
+    (pgno, 0) and (pgno, k) were stored the minimum reads k although subpage 0 is cached.  The page walk tolerates that
+    (it only uses the range to skip holes and is re-anchored by the start clamp); a lookup that refuses numbers outside
+    the range reports cached pages as missing.  Rule (who may branch on it): a branch condition reads these fields only
+    in the function that maintains them and in the page walk."""
+    P = ctx.prog
+    n = 0
+    bad = []
+    for f in P.funcs:
+        if not f.file.startswith("src/"):
+            continue
+        hit = None
+        for bid, b in f.blocks.items():
+            t = b.term
+            if not t or "cond" not in t:
+                continue
+            o = atoms.Operand(f, t["cond"])
+            if any(x.endswith((".subno_min", ".subno_max")) and x.startswith("ttx_page_stat") for x in o.fields):
+                hit = t
+                break
+        if hit is None:
+            continue
+        n += 1
+        run.touch(f)
+        key = "RF-WHO:%s:branches-on-subpage-range" % f.name
+        if f.name in RANGE_DECIDERS or getattr(f, "inv_name", None) in RANGE_DECIDERS:
+            run.holds("RF-WHO", key, "%s() maintains the subpage range or is the page walk" % f.name, "%s:%d" % (f.file, hit.get("line", f.line)))
+        else:
+            run.violation("RF-WHO", key, "%s() decides on `%s`: subno_min == 0 also means 'none yet', so the range is not a true bound - "
+                          "after subpage 0 and a later subpage were stored, subpage 0 is outside it and a lookup that trusts the range "
+                          "reports a cached page as missing" % (f.name, ex.pretty(f, hit["cond"])[:60]),
+                          "%s:%d" % (f.file, hit.get("line", f.line)), witness={"function": f.name})
+    run.floor("functions branching on the subpage range", n, 2)
